@@ -385,6 +385,8 @@ def comp_symbolic(ex, node, gen, dom: Domain, st: State, kind: str) -> List[Tupl
     s1 = st.fork()
     s1.assume(0 <= j, j < n)
     saved_env = dict(s1.env)
+    saved_floor = getattr(ex, "frame_floor", None)
+    ex.frame_floor = s1.alloc
     el = dom.elem(j, s1)
     # element outcomes: (state, ("keep", value) | ("skip",) | Raised)
     outs: List[Tuple[State, Any]] = []
@@ -418,10 +420,9 @@ def comp_symbolic(ex, node, gen, dom: Domain, st: State, kind: str) -> List[Tupl
                 else:
                     for s4, v in ex.ev(node.elt, s3):
                         outs.append((s4, v if isinstance(v, Raised) else ("keep", v)))
+    ex.frame_floor = saved_floor
     results: List[Tuple[State, Any]] = []
-    for s, o in outs:
-        if not (s.ph is st.ph or z3.eq(s.ph, st.ph)):
-            raise Unsupported("comprehension element touches the PathHolder heap")
+    heap_touched = any(not (s.ph is st.ph or z3.eq(s.ph, st.ph)) for s, o in outs)
     normal = [(s, o) for s, o in outs if not isinstance(o, Raised)]
     raised = [(s, o) for s, o in outs if isinstance(o, Raised)]
     # raise outcomes: some element raises (facts of that element kept for a witness index)
@@ -450,6 +451,10 @@ def comp_symbolic(ex, node, gen, dom: Domain, st: State, kind: str) -> List[Tupl
             facts = s.pc[base_len + 2:]
             branches.append((facts, zt))
     sN = st
+    if heap_touched:
+        # every element evaluation preserves all PathHolders allocated before it (frame obligations of
+        # the inlined code / frame axioms of the callees): afterwards only that frame is known
+        ex.contracts._havoc_paths(ex, sN)
     R = M.fresh("comp")
     inr = z3.And(0 <= j, j < n)
     jj = z3.Int("cjq")
